@@ -18,9 +18,9 @@ const (
 
 func init() {
 	register(&Property{
-		ID:  "C09",
-		Run: runC09,
-		Explain: "Static structural necessary conditions of pipeline-graph routing: (R1) signal dispatch – in the graph, builders and connector packages every member of a signal family (Create<A>To<B>, consumer.<S>, New<S>Router, <A>To<B>Stability, …; families are computed from the code) used under `case pipeline.Signal<X>` or inside a family-member function is the member for that signal, ordered from/to pairs included; (R2) node identity – the attribute-key set of each node constructor is exactly {kind, signal, component id} for receivers/exporters (no pipeline id: shared across pipelines), {kind, signal, pipeline id, component id} for processors, {kind, signal, output signal, component id} for connectors, {kind, pipeline id} for capabilities/fan-out nodes, and the node id is a hash over all attribute pairs with case preserved; (R3) receiver/exporter/connector creators add a node only when the lookup missed and otherwise return the existing node, the processor creator always adds; (R4) edges: receiver→capabilities, capabilities/processor→processor in slice order, last→fan-out, fan-out→exporter; (R5) reject before build: components are built only after a successful topological sort whose failure returns the cycle error; unsupported connector uses return an error before that connector's nodes are created; Build tests createNodes' error before building; (R6) processors receive exactly one next consumer, receivers/connectors the list of all next consumers; (R7) the exporter-side signal/pipeline of a connector always feeds the first (from) argument and the receiver-side the second (to) argument of the stability check and the connector node constructor.",
+		ID:         "C09",
+		Run:        runC09,
+		Explain:    "Static structural necessary conditions of pipeline-graph routing: (R1) signal dispatch – in the graph, builders and connector packages every member of a signal family (Create<A>To<B>, consumer.<S>, New<S>Router, <A>To<B>Stability, …; families are computed from the code) used under `case pipeline.Signal<X>` or inside a family-member function is the member for that signal, ordered from/to pairs included; (R2) node identity – the attribute-key set of each node constructor is exactly {kind, signal, component id} for receivers/exporters (no pipeline id: shared across pipelines), {kind, signal, pipeline id, component id} for processors, {kind, signal, output signal, component id} for connectors, {kind, pipeline id} for capabilities/fan-out nodes, and the node id is a hash over all attribute pairs with case preserved; (R3) receiver/exporter/connector creators add a node only when the lookup missed and otherwise return the existing node, the processor creator always adds; (R4) edges: receiver→capabilities, capabilities/processor→processor in slice order, last→fan-out, fan-out→exporter; (R5) reject before build: components are built only after a successful topological sort whose failure returns the cycle error; unsupported connector uses return an error before that connector's nodes are created; Build tests createNodes' error before building; (R6) processors receive exactly one next consumer, receivers/connectors the list of all next consumers; (R7) the exporter-side signal/pipeline of a connector always feeds the first (from) argument and the receiver-side the second (to) argument of the stability check and the connector node constructor.",
 		NotDecided: "Per-path delivery counts for arbitrary topologies (graph reachability is computed by gonum at run time), correctness of gonum's topological sort and cycle search.",
 		Assumes:    []string{"gonum simple.DirectedGraph/topo semantics", "fnv hash collisions are not considered"},
 		Technique:  "static analysis: signal-family dispatch consistency (families computed from the code), constant/attribute-key table extraction, dominance gating, value provenance",
@@ -83,7 +83,9 @@ func runC09(c *Ctx) {
 		fn := p.SSAFunc(f)
 		var keys []string
 		depParam := map[string]bool{}
-		for _, ci := range callsNamed(fn, func(g *types.Func) bool { return g.Pkg() != nil && g.Pkg().Path() == "go.opentelemetry.io/otel/attribute" && g.Name() == "String" }) {
+		for _, ci := range callsNamed(fn, func(g *types.Func) bool {
+			return g.Pkg() != nil && g.Pkg().Path() == "go.opentelemetry.io/otel/attribute" && g.Name() == "String"
+		}) {
 			if k, ok := constString(ci.Common().Args[0]); ok {
 				kn := keyName[k]
 				if kn == "" {
@@ -117,7 +119,9 @@ func runC09(c *Ctx) {
 	} else {
 		// id derives from every kv (loop over the variadic slice, no early exit) with key and value, no case folding
 		var write ssa.CallInstruction
-		for _, ci := range calls(newAttrs, func(ci ssa.CallInstruction) bool { return ci.Common().IsInvoke() && ci.Common().Method.Name() == "Write" }) {
+		for _, ci := range calls(newAttrs, func(ci ssa.CallInstruction) bool {
+			return ci.Common().IsInvoke() && ci.Common().Method.Name() == "Write"
+		}) {
 			write = ci
 		}
 		okLoop := write != nil && loopHasOnlyConditionExit(write.Block())
@@ -160,11 +164,16 @@ func runC09(c *Ctx) {
 		if fn.Parent() != nil || recvNamedOfFn(fn) != graphT || !strings.HasPrefix(fn.Name(), "create") || fn.Signature.Results().Len() != 1 {
 			continue
 		}
-		adds := calls(fn, func(ci ssa.CallInstruction) bool { return ci.Common().IsInvoke() && ci.Common().Method.Name() == "AddNode" || (calleeOf(ci) != nil && calleeOf(ci).Name() == "AddNode") })
+		adds := calls(fn, func(ci ssa.CallInstruction) bool {
+			return ci.Common().IsInvoke() && ci.Common().Method.Name() == "AddNode" || (calleeOf(ci) != nil && calleeOf(ci).Name() == "AddNode")
+		})
 		if len(adds) == 0 {
 			continue
 		}
-		lookups := calls(fn, func(ci ssa.CallInstruction) bool { f := calleeOf(ci); return f != nil && f.Name() == "Node" && len(ci.Common().Args) >= 1 })
+		lookups := calls(fn, func(ci ssa.CallInstruction) bool {
+			f := calleeOf(ci)
+			return f != nil && f.Name() == "Node" && len(ci.Common().Args) >= 1
+		})
 		rt := namedOf(fn.Signature.Results().At(0).Type())
 		kind := ""
 		if rt != nil {
